@@ -139,7 +139,9 @@ def install_baseline(ref, table):
 def _baseline_work(task):
     ref, i = task
     spec = get_spec(ref)
-    return spec.apply(spec.fresh(), i)[0]
+    # a spec may name a simpler instance as the reference of its objects
+    mk = getattr(spec, "reference_fresh", None) or spec.fresh
+    return spec.apply(mk(), i)[0]
 
 
 def baseline(ref, nops, only=None):
